@@ -211,7 +211,7 @@ def run(ctx):
 
 
 def replay(case):
-    if case.get("kind") in ("calc_history", "calc_fresh", "calc_neighbour"):
+    if str(case.get("kind")).startswith("calc_"):
         from .. import calcseq             # pylint: disable=import-outside-toplevel
         return calcseq.replay(case)
     rate, accel, jerk, ticks = case["rate"], case["accel"], case["jerk"], case["ticks"]
